@@ -1440,6 +1440,11 @@ def parse_tree(
             raise ObjectFormatException(f"Invalid mode {mode_text!r}")
         name_end = text.index(b"\0", mode_end)
         name = text[mode_end + 1 : name_end]
+        if not name:
+            # git: "empty filename in tree entry" (tree-walk.c). Path joins
+            # swallow an empty component, which would hide it from path
+            # validation on checkout.
+            raise ObjectFormatException("empty filename in tree entry")
 
         if sha_len is None:
             raise ObjectFormatException("sha_len must be specified")
